@@ -185,6 +185,8 @@ def run(F, rep, tier):
         rep.check(not bad, "C05-R6", "evaluator:no-process-exit", "process exit/abort reachable from the evaluator: %s" % bad)
     from rules.loopshape import scope_restored_on_every_exit
     scope_restored_on_every_exit(F, rep, "C05-R7")
+    from rules.loopshape import assign_compiler_operand_roles
+    assign_compiler_operand_roles(F, rep, "C05-R8")
 
 
 shallow_sites = defaultdict(list)
